@@ -5,7 +5,7 @@ from ..kinds import NODE, Atom, Seq, Tup, _Top, elem_of, unrole
 from ..model import AnalysisError, loc, norm, walk_no_nested
 from ..report import Result
 from ._containers import KIND_RULES
-from ._vid import check_inverse_tables, dict_stores
+from ._vid import check_inverse_tables, check_vertices_are_ids, dict_stores, discover_tables, graph_calls, graph_subscript_tables, table_defs
 
 LEVEL_TEXT = (
     "Structural necessary conditions of C10, decided statically: the vertex-id tables of every projection are inverse of each "
@@ -48,6 +48,67 @@ def _is_len(e):
     return isinstance(e, ast.Call) and isinstance(e.func, ast.Name) and e.func.id == "len" and len(e.args) == 1
 
 
+def _check_returns_id_table(res, v, why):
+    """the second returned value is the id -> object table (its VALUES are the raw objects)"""
+    from ._vid import _is_raw
+    from ..kinds import Dct
+
+    f = v.fi.short
+    rets = [n for n in walk_no_nested(v.fi.node) if isinstance(n, ast.Return) and n.value is not None]
+    for r in rets:
+        if not (isinstance(r.value, ast.Tuple) and len(r.value.elts) == 2):
+            res.unknown("K-VID", f, norm(r), "returns-id-table", "the function does not return a (graph, table) pair literally", loc(v.fi, r))
+            continue
+        k = v.kind(r.value.elts[1])
+        if isinstance(k, Dct):
+            kr, vr = _is_raw(k.key), _is_raw(k.val)
+            st = "violation" if (kr is True and vr is not True) else ("ok" if vr is True or kr is False else "unknown")
+        else:
+            st = "unknown"
+        res.add("K-VID", f, norm(r), "returns-id-table", st, why if st == "violation" else "", loc(v.fi, r))
+
+
+def _similarity_calls(ctx, v):
+    """calls whose two arguments are node sets of two hyperedges (the similarity / distance of the line graphs)"""
+    from ..kinds import St, Lst
+
+    out = []
+    for n in walk_no_nested(v.fi.node):
+        if isinstance(n, ast.Call) and len(n.args) == 2 and not (isinstance(n.func, ast.Attribute) and n.func.attr in ("add_edge", "issubset", "intersection", "union")):
+            ks = [v.kind(a) for a in n.args]
+            if all(isinstance(k, (St, Seq, Lst)) and isinstance(elem_of(k), Atom) and elem_of(k).name == "NODE" for k in ks):
+                if isinstance(n.func, ast.Name) and n.func.id in ("zip", "tuple", "sorted", "set", "product", "combinations"):
+                    continue
+                out.append(n)
+    return out
+
+
+def _check_threshold(ctx, res, v):
+    f = v.fi.short
+    params = {a.arg for a in v.fi.params}
+    if "s" not in params:
+        res.unknown("M-THRESH", f, "w >= s", "w>=s", "no parameter `s`", loc(v.fi, v.fi.node))
+        return
+    cmps = [n for n in walk_no_nested(v.fi.node) if isinstance(n, ast.Compare) and len(n.ops) == 1 and "s" in (norm(n.left), norm(n.comparators[0])) and not any(_is_len(x) for x in ast.walk(n))]
+    if not cmps:
+        raise AnalysisError(f"{f}: threshold comparison not found")
+    sims = _similarity_calls(ctx, v)
+    for c in cmps:
+        s_right = norm(c.comparators[0]) == "s"
+        op = type(c.ops[0])
+        ok = (s_right and op is ast.GtE) or (not s_right and op is ast.LtE)
+        res.check(ok, "M-THRESH", f, norm(c), "w>=s", "the similarity threshold is not `w >= s` (links with similarity exactly s are lost, or weaker links kept)", loc(v.fi, c))
+        other = c.left if s_right else c.comparators[0]
+        src = v.inline(other)
+        if isinstance(src, ast.Call) and (any(norm(src) == norm(x) for x in sims) or len(src.args) == 2):
+            st = "ok"
+        elif isinstance(src, (ast.Constant, ast.BinOp)) or (isinstance(src, ast.Call) and isinstance(src.func, ast.Name) and src.func.id in ("len", "abs", "int", "float")):
+            st = "violation"
+        else:
+            st = "unknown"
+        res.add("M-THRESH", f, norm(c), "w=similarity", st, "" if st == "ok" else "the thresholded quantity is not the similarity of the two hyperedges", loc(v.fi, c))
+
+
 def run(ctx):
     res = Result("C10")
     res.rules.update({k: KIND_RULES[k] for k in ("C-SIG", "K-ARG", "K-SIZE")})
@@ -67,147 +128,220 @@ def run(ctx):
     with res.guard("bipartite projection"):
         v = ctx.view("projections.bipartite_projection")
         f = v.fi.short
-        with res.guard("check_inverse_tablesres, v, id_to_obj, obj_to_id"):
-            check_inverse_tables(res, v, "id_to_obj", "obj_to_id")
-        for n in walk_no_nested(v.fi.node):
-            if isinstance(n, ast.Call) and isinstance(n.func, ast.Attribute) and norm(n.func.value) == "g" and n.func.attr in ("add_node", "add_edge"):
-                for a in n.args:
-                    ok = isinstance(a, ast.Subscript) and norm(a.value) == "obj_to_id"
-                    res.check(ok, "K-VID", f, norm(n), "from-id-table", "a graph vertex / edge is created from a raw object instead of its id in obj_to_id (the id table would not map it back)", loc(v.fi, n))
-        rets = [n for n in walk_no_nested(v.fi.node) if isinstance(n, ast.Return)]
-        res.check(all(isinstance(r.value, ast.Tuple) and len(r.value.elts) == 2 and norm(r.value.elts[1]) == "id_to_obj" for r in rets), "K-VID", f, norm(rets[0]), "returns-id-table", "the projection does not return the id->object table", loc(v.fi, rets[0]))
-        # membership edges: for node in edge: g.add_edge(obj_to_id[edge], obj_to_id[node])
-        me = [n for n in walk_no_nested(v.fi.node) if isinstance(n, ast.Call) and isinstance(n.func, ast.Attribute) and n.func.attr == "add_edge" and norm(n.func.value) == "g"]
-        for n in me:
-            lp = v.enclosing(n, (ast.For,))
-            okl = lp is not None and isinstance(lp.target, ast.Name) and any(isinstance(a, ast.Subscript) and norm(a.slice) == lp.target.id for a in n.args) and any(isinstance(a, ast.Subscript) and norm(a.slice) == norm(lp.iter) for a in n.args)
-            res.check(okl, "K-VID", f, norm(n), "membership", "bipartite links do not join a hyperedge with each of ITS nodes", loc(v.fi, n))
+        g, id2obj, inv = discover_tables(v)
+        gcalls = graph_calls(ctx, v)
+        if inv is None:
+            cands = [t for t in graph_subscript_tables(v, gcalls) if t != id2obj]
+            inv = cands[0] if cands else None
+        with res.guard("inverse id tables of the bipartite projection"):
+            check_inverse_tables(res, v, id2obj, inv)
+        check_vertices_are_ids(res, v, gcalls, inv)
+        _check_returns_id_table(res, v, "the projection does not return the id->object table")
+        # membership links join a hyperedge with each of ITS nodes
+        tdefs = table_defs(v)
+
+        def origin(a):
+            """the object whose id `a` is: the key of the lookup, or the key a label was stored under"""
+            e = v.inline(a)
+            if isinstance(e, ast.Subscript) and isinstance(e.value, ast.Name) and e.value.id == inv:
+                return norm(e.slice)
+            for d in tdefs.get(inv, []):
+                if d.form == "store" and d.val in (norm(a), norm(e)):
+                    return d.key
+            return None
+
+        for gc in gcalls:
+            if gc.meth != "add_edge":
+                continue
+            lp = v.enclosing(gc.node, (ast.For,))
+            if lp is None or not isinstance(lp.target, ast.Name) or len(gc.vargs) != 2:
+                res.unknown("K-VID", f, norm(gc.node), "membership", "link not inside a loop over the members of a hyperedge", loc(v.fi, gc.node))
+                continue
+            os_ = [origin(a) for a in gc.vargs]
+            if None in os_:
+                res.unknown("K-VID", f, norm(gc.node), "membership", "the objects behind the two ids were not identified", loc(v.fi, gc.node))
+                continue
+            member, coll = lp.target.id, norm(lp.iter)
+            ok = (os_[0] == coll and os_[1] == member) or (os_[1] == coll and os_[0] == member)
+            res.check(ok, "K-VID", f, norm(gc.node), "membership", "bipartite links do not join a hyperedge with each of ITS nodes", loc(v.fi, gc.node))
     # ---- line graphs
     with res.guard("line graphs"):
-        for d, tabs in (("projections.line_graph", ("edge_to_id", "id_to_edge")), ("projections.directed_line_graph", ("edge_to_id", "id_to_edge"))):
+        for d in ("projections.line_graph", "projections.directed_line_graph"):
             v = ctx.view(d)
             f = v.fi.short
-            with res.guard("check_inverse_tablesres, v, tabs"):
-                check_inverse_tables(res, v, *tabs)
-            with res.guard("F.check_usectx, res, d, s, weighted, distance"):
+            g, id2obj, inv = discover_tables(v)
+            gcalls = graph_calls(ctx, v)
+            if inv is None:
+                cands = [t for t in graph_subscript_tables(v, gcalls) if t != id2obj]
+                inv = cands[0] if cands else None
+            with res.guard(f"inverse id tables of {d}"):
+                check_inverse_tables(res, v, id2obj, inv)
+            with res.guard(f"F-USE of {d}"):
                 F.check_use(ctx, res, d, ("s", "weighted", "distance"))
             # M-THRESH
-            cmps = [n for n in walk_no_nested(v.fi.node) if isinstance(n, ast.Compare) and len(n.ops) == 1 and {norm(n.left), norm(n.comparators[0])} >= {"s"} and not any(_is_len(x) for x in ast.walk(n))]
-            if not cmps:
-                raise AnalysisError(f"{f}: threshold comparison not found")
-            for c in cmps:
-                s_right = norm(c.comparators[0]) == "s"
-                op = type(c.ops[0])
-                ok = (s_right and op is ast.GtE) or (not s_right and op is ast.LtE)
-                res.check(ok, "M-THRESH", f, norm(c), "w>=s", "the similarity threshold is not `w >= s` (links with similarity exactly s are lost, or weaker links kept)", loc(v.fi, c))
-                other = c.left if s_right else c.comparators[0]
-                src = None
-                if isinstance(other, ast.Name):
-                    defs = [m for m in walk_no_nested(v.fi.node) if isinstance(m, ast.Assign) and isinstance(m.targets[0], ast.Name) and m.targets[0].id == other.id]
-                    src = defs[-1].value if defs else None
-                res.check(src is not None and isinstance(src, ast.Call) and norm(src.func) == "_distance", "M-THRESH", f, norm(c), "w=_distance", "the thresholded quantity is not the similarity of the two hyperedges", loc(v.fi, c))
-            # graph edges use ids of the id table; vertices are 0..len(h)-1 and the counter enumerates h.get_edges()
-            for n in walk_no_nested(v.fi.node):
-                if isinstance(n, ast.Call) and isinstance(n.func, ast.Attribute) and norm(n.func.value) == "g" and n.func.attr == "add_edge":
-                    ok = len(n.args) == 2 and all(isinstance(a, ast.Subscript) and norm(a.value) == "edge_to_id" for a in n.args)
-                    res.check(ok, "K-VID", f, norm(n), "from-id-table", "a line-graph link is created from raw hyperedges instead of their ids", loc(v.fi, n))
-                if isinstance(n, ast.Call) and isinstance(n.func, ast.Attribute) and norm(n.func.value) == "g" and n.func.attr == "add_nodes_from":
-                    txt = norm(n.args[0]) if n.args else ""
-                    res.check("range(len(h))" in txt or "range(len(edges))" in txt or "range(cont)" in txt, "K-VID", f, norm(n), "one-vertex-per-edge", "the line graph does not get exactly one vertex per hyperedge id", loc(v.fi, n))
-            rets = [n for n in walk_no_nested(v.fi.node) if isinstance(n, ast.Return)]
-            res.check(all(isinstance(r.value, ast.Tuple) and norm(r.value.elts[1]) == "id_to_edge" for r in rets), "K-VID", f, norm(rets[0]), "returns-id-table", "the line graph does not return the id->hyperedge table", loc(v.fi, rets[0]))
-        with res.guard("_loop_pairsres, ctx.viewprojections.line_graph"):
-            _loop_pairs(res, ctx.view("projections.line_graph"))
-        with res.guard("_loop_pairsres, ctx.viewprojections.clique_projection"):
-            _loop_pairs(res, ctx.view("projections.clique_projection"))
+            with res.guard(f"M-THRESH of {d}"):
+                _check_threshold(ctx, res, v)
+            # graph links use ids of the id table; vertices are 0..len(h)-1
+            check_vertices_are_ids(res, v, [gc for gc in gcalls if gc.meth == "add_edge"], inv, what="a line-graph link is created from raw hyperedges instead of their ids")
+            for gc in gcalls:
+                if gc.meth == "add_nodes_from" and gc.vargs:
+                    e = v.inline(gc.vargs[0])
+                    txt = norm(e)
+                    good = any(t in txt for t in ("range(len(h))", "range(len(h.get_edges()))", "range(len(edges))", "range(cont)")) and not any(isinstance(x, ast.BinOp) for x in ast.walk(e)) and not any(isinstance(x, ast.Call) and norm(x.func) == "range" and len(x.args) != 1 for x in ast.walk(e))
+                    if not good and (txt in (id2obj, f"{id2obj}.keys()", f"list({id2obj})", f"{inv}.values()")):
+                        good = True
+                    has_range = any(isinstance(x, ast.Call) and norm(x.func) == "range" for x in ast.walk(e))
+                    res.add("K-VID", f, norm(gc.node), "one-vertex-per-edge", "ok" if good else ("violation" if has_range else "unknown"), "" if good else "the line graph does not get exactly one vertex per hyperedge id", loc(v.fi, gc.node))
+            _check_returns_id_table(res, v, "the line graph does not return the id->hyperedge table")
+        for d in ("projections.line_graph", "projections.clique_projection"):
+            with res.guard(f"pair enumeration of {d}"):
+                vv = ctx.view(d)
+                n_found = _loop_pairs(res, vv)
+                combs = [n for n in walk_no_nested(vv.fi.node) if isinstance(n, ast.Call) and norm(n.func) in ("combinations", "itertools.combinations")]
+                for c in combs:
+                    two = len(c.args) == 2 and isinstance(c.args[1], ast.Constant) and c.args[1].value == 2
+                    res.check(two, "L-PAIRS", vv.fi.short, norm(c), "i<j", "the pair enumeration is not combinations(<list>, 2)", loc(vv.fi, c))
+                if not n_found and not combs:
+                    res.unknown("L-PAIRS", vv.fi.short, "pair enumeration", "i<j", "no pair enumeration recognised (index loops / itertools.combinations)", loc(vv.fi, vv.fi.node))
         # the pair loops of the line graph range over the complete incident lists
-        v = ctx.view("projections.line_graph")
-        adjs = [a for a in dict_stores(v).get("adj", [])]
-        if not adjs:
-            raise AnalysisError("line_graph: adjacency construction not recognised")
-        for asg, k, val in adjs:
-            # (a filtering comprehension over the incident list is accepted: whether the filter is right is K-SIZE's business)
-            calls = [x for x in ast.walk(val) if isinstance(x, ast.Call) and isinstance(x.func, ast.Attribute) and x.func.attr == "get_incident_edges"]
-            ok = len(calls) == 1 and len(calls[0].args) == 1 and not calls[0].keywords and norm(calls[0].args[0]) == norm(k)
-            res.check(ok, "L-PAIRS", v.fi.short, norm(asg), "incident-list-of-node", "the per-node hyperedge lists that drive the pair enumeration are not derived from the incident list of that node", loc(v.fi, asg))
+        with res.guard("incident lists of the line graph"):
+            v = ctx.view("projections.line_graph")
+            found = 0
+            for n in walk_no_nested(v.fi.node):
+                key = val = None
+                if isinstance(n, ast.Assign) and len(n.targets) == 1 and isinstance(n.targets[0], ast.Subscript):
+                    key, val = n.targets[0].slice, n.value
+                elif isinstance(n, ast.DictComp):
+                    key, val = n.key, n.value
+                if val is None:
+                    continue
+                # (a filtering comprehension over the incident list is accepted: whether the filter is right is K-SIZE's business)
+                calls = [x for x in ast.walk(val) if isinstance(x, ast.Call) and isinstance(x.func, ast.Attribute) and x.func.attr == "get_incident_edges"]
+                if not calls:
+                    continue
+                found += 1
+                ok = len(calls) == 1 and len(calls[0].args) == 1 and not calls[0].keywords and norm(calls[0].args[0]) == norm(key)
+                res.check(ok, "L-PAIRS", v.fi.short, norm(n)[:160], "incident-list-of-node", "the per-node hyperedge lists that drive the pair enumeration are not derived from the incident list of that node", loc(v.fi, n))
+            if not found:
+                res.unknown("L-PAIRS", v.fi.short, "adj[node] = h.get_incident_edges(node)", "incident-list-of-node", "the per-node incident lists were not recognised", loc(v.fi, v.fi.node))
     # ---- K-ROLE in the directed line graph
     with res.guard("K-ROLE in the directed line graph"):
         v = ctx.view("projections.directed_line_graph")
         f = v.fi.short
-        dist = [n for n in walk_no_nested(v.fi.node) if isinstance(n, ast.Call) and norm(n.func) == "_distance" and len(n.args) == 2]
-        links = [n for n in walk_no_nested(v.fi.node) if isinstance(n, ast.Call) and isinstance(n.func, ast.Attribute) and n.func.attr == "add_edge" and norm(n.func.value) == "g" and len(n.args) >= 2]
+        dist = _similarity_calls(ctx, v)
+        links = [gc for gc in graph_calls(ctx, v) if gc.meth == "add_edge" and len(gc.vargs) == 2]
         if not dist or not links:
             raise AnalysisError(f"{f}: distance / link idiom not recognised")
 
         def comp_of(arg):
             """(edge variable, role) feeding a distance argument"""
-            e = arg
-            if isinstance(e, ast.Name):
-                defs = [m for m in walk_no_nested(v.fi.node) if isinstance(m, ast.Assign) and isinstance(m.targets[0], ast.Name) and m.targets[0].id == e.id]
-                e = defs[-1].value if defs else e
+            e = v.inline(arg)
             for x in ast.walk(e):
                 if isinstance(x, ast.Subscript) and isinstance(x.value, ast.Name) and isinstance(x.slice, ast.Constant):
-                    k = elem_of(v.kind(x))
-                    role = k.role if isinstance(k, Atom) else None
-                    return x.value.id, role or {0: "SRC", 1: "TGT"}.get(x.slice.value)
+                    return x.value.id, {0: "SRC", 1: "TGT"}.get(x.slice.value)
             return None, None
 
         for dcall in dist:
             a, b = comp_of(dcall.args[0]), comp_of(dcall.args[1])
             roles = {a[0]: a[1], b[0]: b[1]}
             for ln in links:
-                tail, head = norm(ln.args[0].slice) if isinstance(ln.args[0], ast.Subscript) else None, norm(ln.args[1].slice) if isinstance(ln.args[1], ast.Subscript) else None
-                ok = roles.get(tail) == "TGT" and roles.get(head) == "SRC"
-                res.check(ok, "K-ROLE", f, norm(ln), "tail=target-side", f"arc {tail}->{head} is drawn although the distance compares the {roles.get(tail)} set of {tail} with the {roles.get(head)} set of {head}: direction reversed", loc(v.fi, ln))
+                ends = []
+                for x in ln.vargs:
+                    e = v.inline(x)
+                    ends.append(norm(e.slice) if isinstance(e, ast.Subscript) else None)
+                tail, head = ends
+                rt, rh = roles.get(tail), roles.get(head)
+                if rt is None or rh is None:
+                    res.unknown("K-ROLE", f, norm(ln.node), "tail=target-side", "the hyperedges behind the arc's end points / the sides that entered the similarity were not identified", loc(v.fi, ln.node))
+                else:
+                    res.check(rt == "TGT" and rh == "SRC", "K-ROLE", f, norm(ln.node), "tail=target-side", f"arc {tail}->{head} is drawn although the distance compares the {rt} set of {tail} with the {rh} set of {head}: direction reversed", loc(v.fi, ln.node))
     # ---- clique projection keeps isolated nodes when asked
     with res.guard("clique projection keeps isolated nodes when asked"):
         v = ctx.view("projections.clique_projection")
-        with res.guard("F.check_usectx, res, projections.clique_projection, keep_isolated,"):
+        with res.guard("F-USE of keep_isolated"):
             F.check_use(ctx, res, "projections.clique_projection", ("keep_isolated",))
-        ifs = [n for n in walk_no_nested(v.fi.node) if isinstance(n, ast.If) and norm(n.test) == "keep_isolated"]
-        okk = any(isinstance(x, ast.Call) and isinstance(x.func, ast.Attribute) and x.func.attr in ("add_node", "add_nodes_from") for i in ifs for x in ast.walk(i))
-        res.check(okk, "F-USE", v.fi.short, "if keep_isolated: g.add_node(node)", "keep_isolated", "keep_isolated does not add every node of the hypergraph to the projection", loc(v.fi, v.fi.node))
+        from ..rules_container import _atoms, _implied_branch
+
+        okk = False
+        seen_test = False
+        for i in [n for n in walk_no_nested(v.fi.node) if isinstance(n, ast.If)]:
+            for atom, _ in _atoms(i.test, True):
+                if isinstance(atom, ast.Name) and atom.id == "keep_isolated":
+                    seen_test = True
+                    lab = _implied_branch(i.test, atom, True)
+                    for gc in graph_calls(ctx, v):
+                        if gc.meth in ("add_node", "add_nodes_from") and lab and v.cfg.branch_dominated(v.cfg.by_ast[id(i.test)], lab, v.cfg_id(gc.node)):
+                            okk = True
+        res.add("F-USE", v.fi.short, "if keep_isolated: g.add_node(node)", "keep_isolated", "ok" if okk else ("violation" if seen_test else "unknown"), "" if okk else "keep_isolated does not add every node of the hypergraph to the projection", loc(v.fi, v.fi.node))
     # ---- simplicial complex
     with res.guard("simplicial complex"):
         v = ctx.view("simplicial_complex.simplicial_complex")
         f = v.fi.short
-        adds = [n for n in walk_no_nested(v.fi.node) if isinstance(n, ast.Call) and isinstance(n.func, ast.Attribute) and n.func.attr == "add" and n.args]
-        if not adds:
-            raise AnalysisError(f"{f}: subset insertion idiom not recognised")
-        for a in adds:
-            k = v.kind(a.args[0])
-            res.add("S-CANON", f, norm(a), "canonical", "ok" if isinstance(k, Seq) and k.canon else ("unknown" if isinstance(k, _Top) else "violation"), "" if isinstance(k, Seq) and k.canon else f"a simplex of kind {k!r} is inserted without canonicalisation: the same subset reached from two hyperedges becomes two hyperedges", loc(v.fi, a))
-        lp = [n for n in walk_no_nested(v.fi.node) if isinstance(n, ast.For) and isinstance(n.iter, ast.Call) and isinstance(n.iter.func, ast.Attribute) and n.iter.func.attr == "get_edges"]
-        res.check(bool(lp), "S-CANON", f, "for edge in h.get_edges()", "all-edges", "the closure does not range over every hyperedge", loc(v.fi, v.fi.node))
+        from ..kinds import Lst, Obj, St
+
+        ctors = [n for n in walk_no_nested(v.fi.node) if isinstance(n, ast.Call) and isinstance(v.kind(n), Obj) and v.kind(n).cls == "Hypergraph" and isinstance(n.func, ast.Name)]
+        if not ctors:
+            raise AnalysisError(f"{f}: construction of the closure hypergraph not recognised")
+        for c in ctors:
+            arg = c.args[0] if c.args else next((kw.value for kw in c.keywords if kw.arg == "edge_list"), None)
+            if arg is None:
+                res.unknown("S-CANON", f, norm(c), "canonical", "the closure is not handed to the constructor", loc(v.fi, c))
+                continue
+            k = elem_of(v.kind(arg))
+            good = isinstance(k, Seq) and k.canon
+            res.add("S-CANON", f, norm(c), "canonical", "ok" if good else ("unknown" if isinstance(k, _Top) or not isinstance(k, (Seq, Tup)) else "violation"), "" if good else f"simplices of kind {k!r} are inserted without canonicalisation: the same subset reached from two hyperedges becomes two hyperedges", loc(v.fi, c))
+        its = [n.iter for n in ast.walk(v.fi.node) if isinstance(n, (ast.For, ast.comprehension))]
+        lp = [i for i in its if isinstance(v.inline(i), ast.Call) and isinstance(v.inline(i).func, ast.Attribute) and v.inline(i).func.attr == "get_edges" and not v.inline(i).args and not v.inline(i).keywords]
+        res.add("S-CANON", f, "for edge in h.get_edges()", "all-edges", "ok" if lp else "unknown", "" if lp else "the loop over every hyperedge was not recognised", loc(v.fi, v.fi.node))
         gs = ctx.view("simplicial_complex.get_all_subsets")
-        txt = norm(gs.fi.node)
         rng = [n for n in ast.walk(gs.fi.node) if isinstance(n, ast.Call) and isinstance(n.func, ast.Name) and n.func.id == "range"]
-        ok = bool(rng) and any(len(r.args) == 2 and isinstance(r.args[0], ast.Constant) and r.args[0].value in (0, 1) and norm(r.args[1]) == "len(s) + 1" for r in rng) and "combinations(s, x)" in txt
-        res.check(ok, "S-CANON", gs.fi.short, norm(rng[0]) if rng else "range(0, len(s) + 1)", "all-sizes", "subset sizes do not range over 1..len(s): the hyperedge itself or its smaller faces are missing from the closure", loc(gs.fi, gs.fi.node))
+        combs = [n for n in ast.walk(gs.fi.node) if isinstance(n, ast.Call) and norm(n.func) in ("combinations", "itertools.combinations")]
+        if not rng or not combs:
+            res.unknown("S-CANON", gs.fi.short, "range(0, len(s) + 1)", "all-sizes", "subset generation idiom not recognised", loc(gs.fi, gs.fi.node))
+        for r in rng if combs else []:
+            start = r.args[0] if len(r.args) >= 2 else ast.Constant(0)
+            stop = r.args[1] if len(r.args) >= 2 else (r.args[0] if r.args else None)
+            ok = isinstance(start, ast.Constant) and start.value in (0, 1) and stop is not None and norm(stop) in ("len(s) + 1", "1 + len(s)", "n + 1") and len(r.args) <= 2
+            res.check(ok, "S-CANON", gs.fi.short, norm(r), "all-sizes", "subset sizes do not range over 1..len(s): the hyperedge itself or its smaller faces are missing from the closure", loc(gs.fi, r))
     # ---- similarity functions: a ratio of two integer counts, rounded once
     with res.guard("similarity functions: a ratio of two integer counts, rounded once"):
         res.rules["D-RATIO"] = "intersection = |a & b|; jaccard_similarity = |a & b| / |a | b| as ONE division of integer counts (no float subtraction before the threshold test)"
         v = ctx.view("edge_similarity.jaccard_similarity")
-        rets = [n for n in walk_no_nested(v.fi.node) if isinstance(n, ast.Return)]
+        rets = [n for n in walk_no_nested(v.fi.node) if isinstance(n, ast.Return) and n.value is not None]
 
         def int_count(e):
             if isinstance(e, ast.Call) and isinstance(e.func, ast.Name) and e.func.id == "len":
                 return True
             if isinstance(e, ast.BinOp) and isinstance(e.op, (ast.Add, ast.Sub, ast.Mult)):
                 return int_count(e.left) and int_count(e.right)
-            if isinstance(e, ast.Name):
-                defs = [m.value for m in walk_no_nested(v.fi.node) if isinstance(m, ast.Assign) and isinstance(m.targets[0], ast.Name) and m.targets[0].id == e.id]
-                return bool(defs) and all(int_count(d) for d in defs)
             return isinstance(e, ast.Constant) and isinstance(e.value, int)
 
+        def setop(e, names, sym):
+            """len(<a> op <b>) with op the named set method or operator"""
+            if not (isinstance(e, ast.Call) and isinstance(e.func, ast.Name) and e.func.id == "len" and len(e.args) == 1):
+                return None
+            x = e.args[0]
+            if isinstance(x, ast.BinOp):
+                return isinstance(x.op, sym)
+            if isinstance(x, ast.Call) and isinstance(x.func, ast.Attribute):
+                return x.func.attr in names
+            return None
+
         for r in rets:
-            ok = isinstance(r.value, ast.BinOp) and isinstance(r.value.op, ast.Div) and int_count(r.value.left) and int_count(r.value.right)
-            res.check(ok, "D-RATIO", v.fi.short, norm(r), "single-division", "the similarity is not computed as one division of integer counts: an extra floating-point step (e.g. 1 - distance) makes `w >= s` fail when the similarity equals s exactly", loc(v.fi, r))
+            e = v.inline(r.value)
+            ok = isinstance(e, ast.BinOp) and isinstance(e.op, ast.Div) and int_count(e.left) and int_count(e.right)
+            calls_other = any(isinstance(x, ast.Call) and v.ctx.callees(v.fi, x) for x in ast.walk(r.value))
+            floaty = any(isinstance(x, ast.BinOp) and isinstance(x.op, (ast.Sub, ast.Add)) and any(isinstance(y, ast.BinOp) and isinstance(y.op, ast.Div) or (isinstance(y, ast.Call) and v.ctx.callees(v.fi, y)) for y in (x.left, x.right)) for x in ast.walk(e))
+            res.add("D-RATIO", v.fi.short, norm(r), "single-division", "ok" if ok else ("violation" if floaty or not calls_other else "unknown"), "" if ok else "the similarity is not computed as one division of integer counts: an extra floating-point step (e.g. 1 - distance) makes `w >= s` fail when the similarity equals s exactly", loc(v.fi, r))
             if ok:
-                num, den = norm(r.value.left), norm(r.value.right)
-                res.check(("intersection" in num or "&" in num) and ("union" in den or "|" in den), "D-RATIO", v.fi.short, norm(r), "inter/union", "the similarity is not |a & b| / |a | b|", loc(v.fi, r))
+                i_ok, u_ok = setop(e.left, ("intersection",), ast.BitAnd), setop(e.right, ("union",), ast.BitOr)
+                st = "ok" if i_ok and u_ok else ("violation" if i_ok is False or u_ok is False else "unknown")
+                res.add("D-RATIO", v.fi.short, norm(r), "inter/union", st, "" if st == "ok" else "the similarity is not |a & b| / |a | b|", loc(v.fi, r))
         v = ctx.view("edge_similarity.intersection")
-        rets = [n for n in walk_no_nested(v.fi.node) if isinstance(n, ast.Return)]
-        res.check(all(norm(r.value) in ("len(a.intersection(b))", "len(a & b)", "len(set(a) & set(b))", "len(set(a).intersection(b))", "len(set(a).intersection(set(b)))") for r in rets), "D-RATIO", v.fi.short, norm(rets[0]), "intersection-size", "intersection() does not return the number of common nodes", loc(v.fi, rets[0]))
+        rets = [n for n in walk_no_nested(v.fi.node) if isinstance(n, ast.Return) and n.value is not None]
+        for r in rets:
+            e = v.inline(r.value)
+            i_ok = setop(e, ("intersection",), ast.BitAnd)
+            res.add("D-RATIO", v.fi.short, norm(r), "intersection-size", "ok" if i_ok else ("violation" if i_ok is False or not isinstance(e, ast.Call) else "unknown"), "" if i_ok else "intersection() does not return the number of common nodes", loc(v.fi, r))
     res.assumptions += ["itertools.combinations enumerates every subset of the given size (library)", "for the Jaccard distance `s` is a ratio; the SIZE unit of `s` is only used to reject comparisons of `s` with an ORDER-valued expression"]
     return res
